@@ -690,6 +690,15 @@ def execute(scn, want):
                 # the re-created class goes through the metaclass with the members of the original, re-exports included
                 d19_cls = step["name"]
                 d19_spec = m.world.cspec.get(step["of"]) or {}
+            if op == "bad" and d19_cls is None and isinstance(step.get("spec"), dict) and step["spec"].get("methods") is not None:
+                # a rejected definition has gone through the metaclass as well (the namespace is processed before the error is raised)
+                bases_ = [b_ for b_ in ([step["spec"].get("base")] + list(step["spec"].get("bases2", ()))) if b_ in m.world.classes]
+                anc_classes = set(k_ for b_ in bases_ for k_ in m.world.classes[b_].__mro__)
+                for ms_ in step["spec"].get("methods", ()):
+                    if ms_.get("kind") == "alias":
+                        src_ = m.world.classes.get(ms_["of"].split(".")[0])
+                        if src_ is not None and (not isinstance(src_, icontract_meta()) or ms_["of"] in touched) and (src_ not in anc_classes or ms_.get("wrapped")):
+                            borrowed_plain.add(ms_["of"].split(".")[0])
             if d19_cls is not None:
                 name_ = name
                 name = d19_cls
